@@ -2003,8 +2003,10 @@ RCP<const Set> eigen_values(const DenseMatrix &A)
 // Mimic `eye` function in NumPy
 void eye(DenseMatrix &A, int k)
 {
-    if ((k >= 0 and (unsigned) k >= A.col_) or k + A.row_ <= 0) {
+    if ((k >= 0 and (unsigned)k >= A.col_)
+        or (k < 0 and 0u - (unsigned)k >= A.row_)) {
         zeros(A);
+        return;
     }
 
     vec_basic v = vec_basic(k > 0 ? A.col_ - k : A.row_ + k, one);
